@@ -1303,7 +1303,7 @@ static void bufr_put_af_compressed( BUFR_Message *msg, BUFR_Dataset *dts, BufrDe
       }
    else
       {
-      bufr_putbits( msg, umin, bcv->encoding.nbits );  /* REF */
+      bufr_putbits( msg, umin, bcv->value->af->nbits );  /* REF */
       umax -= umin;
       nbinc = bufr_value_nbits( umax );
       bufr_putbits( msg, nbinc, 6 );          /* NBINC */
